@@ -731,6 +731,7 @@ fn dump_types<'tcx>(tcx: TyCtxt<'tcx>) -> J {
         let mut o = vec![
             ("path", J::S(tcx.def_path_str(def_id))),
             ("kind", J::S(format!("{:?}", kind))),
+            ("vis", J::S(format!("{:?}", tcx.visibility(def_id)))),
         ];
         let (file, lo, _hi, chain) = span_info(tcx, tcx.def_span(def_id));
         o.push(("file", J::S(file)));
